@@ -225,6 +225,30 @@ def build_diff_records(quick: bool, seed: int) -> list[dict[str, Any]]:
                 red = diffs.reduce(diffs.diff(a, b), tuple(path))
                 recs.append({'kind': 'reduce', 'old': enc(a), 'new': enc(b), 'path': path,
                              'items': [{'op': str(i.op), 'path': list(i.field), 'old': enc(i.old), 'new': enc(i.new)} for i in red]})
+    # the old / new values a handler narrowed to a field gets (ResourceHandler.adjust_cause), also when nothing has changed at all
+    import logging
+    from kopf._cogs.structs import bodies, ephemera, patches, references
+    from kopf._core.engines import indexing
+    from kopf._core.intents import causes, handlers as khandlers
+    res_ = references.Resource('example.com', 'v1', 'things', namespaced=True)
+    log = logging.getLogger('c04')
+    same = [(d_, d_) for d_ in docs]
+    for a, b in same + rnd.sample(pairs, 300 if quick else 3000) + more[:100 if quick else 1000]:
+        if not isinstance(a, dict) or not isinstance(b, dict):
+            continue
+        for path, reason in itertools.product((['p'], ['a'], ['p', 'q'], ['a', 'b']), ('update', 'resume', 'delete', 'create')):
+            if rnd.random() < (0.5 if a is b else 0.15):
+                old = None if reason == 'create' else a
+                h = khandlers.ChangingHandler(fn=lambda **_: None, id='h', param=None, errors=None, timeout=None, retries=None, backoff=None,
+                                              selector=references.Selector('example.com', 'v1', 'things'), labels=None, annotations=None, when=None,
+                                              field=tuple(path), value=None, old=None, new=None, field_needs_change=False, initial=None, deleted=None,
+                                              requires_finalizer=None, reason=causes.Reason(reason))
+                c = causes.ChangingCause(reason=causes.Reason(reason), initial=reason == 'resume', old=old, new=b, diff=diffs.diff(old, b), resource=res_,
+                                         indices=indexing.OperatorIndexers().indices, logger=log, patch=patches.Patch(),
+                                         body=bodies.Body({'metadata': {'name': 'o', 'uid': 'u'}}), memo=ephemera.Memo())
+                n = h.adjust_cause(c)
+                recs.append({'kind': 'narrow', 'hasold': old is not None, 'old': enc(a), 'new': enc(b), 'path': path, 'reason': reason,
+                             'nold': enc(n.old), 'nnew': enc(n.new)})
     return recs
 
 
@@ -242,7 +266,7 @@ def run(ctx, rep) -> None:
     bad = records.judge('Rec_Essence', recs, rep=rep, shard=4000)
     rep.evaluations += len(recs); rep.traces += len(recs)
     for rec in recs:
-        if rec['kind'] in ('own', 'foreign', 'visible') or rec.get('items'):
+        if rec['kind'] in ('own', 'foreign', 'visible', 'narrow') or rec.get('items'):
             rep.nontrivial(rec)
     kinds: dict[str, int] = {}
     for rec in recs:
